@@ -180,9 +180,13 @@ def decBlockIndex (bs : Bytes) : Outcome (List BlockDef) :=
 def getBlock (l : List BlockDef) (x y z : Nat) : Option BlockDef :=
   l.reverse.find? (fun b => b.x == x && b.y == y && b.z == z)
 
-/-- the distinct entries of the hash map (those that `getBlock` can return) -/
-def liveBlocks (l : List BlockDef) : List BlockDef :=
-  l.filter (fun b => getBlock l b.x b.y b.z == some b)
+/-- the distinct entries of the hash map (those that `getBlock` can return): a record is dropped
+    when a later record has the same block coordinate -/
+def liveBlocks : List BlockDef → List BlockDef
+  | [] => []
+  | b :: rest =>
+    if rest.any (fun c => c.x == b.x && c.y == b.y && c.z == b.z) then liveBlocks rest
+    else b :: liveBlocks rest
 
 /-- `BlockIndex::as_blob` over a list of blocks (the real order is `HashMap` order) -/
 def encBlockIndex : List BlockDef → Outcome Bytes
